@@ -623,6 +623,7 @@ void dispatch(const Desc& d)
         const int n = (rep % 2 == 0) ? 3 : (int) (4 + r.below((int) d.i("nmax", 5)));
         Data dt = make_data(n, r);
         const double sigma = 0.5 + rep;   // half-integers: the shifted integer matrices are nonsingular with overwhelming likelihood; cond is logged
+#if !defined(VH_MATOP_PART) || VH_MATOP_PART == 1
         if (part == "all" || part == "prod")
         {
 #define DSP(Sc, code) dense_sym_prod<Sc, LO, CM>(dt, code); dense_sym_prod<Sc, LO, RM>(dt, code); dense_sym_prod<Sc, UP, CM>(dt, code); dense_sym_prod<Sc, UP, RM>(dt, code); \
@@ -637,6 +638,8 @@ void dispatch(const Desc& d)
             herm_prod<LO, CM, true>(dt, r); herm_prod<LO, RM, true>(dt, r); herm_prod<UP, CM, true>(dt, r); herm_prod<UP, RM, true>(dt, r);
             argument_forms(dt);
         }
+#endif
+#if !defined(VH_MATOP_PART) || VH_MATOP_PART == 2
         if (part == "all" || part == "solve")
         {
 #define DSS(Sc, code) dense_sym_shift<Sc, LO, CM>(dt, code, sigma); dense_sym_shift<Sc, LO, RM>(dt, code, sigma); dense_sym_shift<Sc, UP, CM>(dt, code, sigma); dense_sym_shift<Sc, UP, RM>(dt, code, sigma); \
@@ -653,6 +656,8 @@ void dispatch(const Desc& d)
             SPS(double, 2, int, "int") SPS(double, 2, long, "long")
 #undef SPS
         }
+#endif
+#if !defined(VH_MATOP_PART) || VH_MATOP_PART == 3
         if (part == "all" || part == "ssi")
         {
             ssi_all<Eigen::Dense, Eigen::Dense>(dt, sigma);
@@ -661,9 +666,10 @@ void dispatch(const Desc& d)
             ssi_all<Eigen::Sparse, Eigen::Sparse>(dt, sigma);
             composites(dt, sigma);
         }
+#endif
     }
     Line e("EndMatOp");
-    e.i("reps", reps);
+    e.i("reps", reps).str("part", part);
     out().put(e);
 }
 #define VH_ONLY 2
